@@ -1,15 +1,17 @@
 (* C09 - Quantize and RoundToIntegral produce the requested exponent, correctly rounded.
-   Statements only; proofs in Proofs/QuantizeProofs.v.  Proven for every operand: the branch where the
-   target exponent is finer than or equal to the operand's (exact), the branch where EVERY digit is
-   discarded (x more than one digit below the quantum: 0 or 1 unit by the mode and the sign - the case
-   the test vectors do not contain), zeros, and the relation between RoundToIntegralValue/Exact.
-   NOT proven (named _partial): the branch that drops some but not all digits through an inner Round
-   with a scratch context, and the guards of Context.Quantize; these are decided on every result of the
-   implementation by the exact integer oracle (x / 10^e rounded by Spec-Z rndZ, invalid iff more than
-   Precision digits or e outside [Etiny, Emax]) and by bit-for-bit correspondence with the model. *)
+   Statements only; proofs in Proofs/QuantizeProofs.v and Proofs/QuantizeMid.v.
+   quant_coeff mode x e is the integer the property prescribes: x / 10^e rounded to an integer by the
+   specification's rndZ in the mode, with the sign of x (exact multiplication when e is finer);
+   quant_inexact: digits were lost; quant_invalid: the coefficient needs more than Precision digits, or e
+   lies outside [Etiny, Emax], or the result's adjusted exponent exceeds Emax.
+   Proven for EVERY finite operand, target exponent, context and mode: every branch of Context.quantize
+   (finer or equal exponent; some digits dropped through the inner Round with a scratch context, with the
+   carry out of all nines folded back; exactly all digits dropped; the operand more than one digit below
+   the quantum; zeros), Context.Quantize with its guards, and RoundToIntegralExact / Value.
+   Ceil and Floor: decided by the integer oracle on the implementation and by correspondence (not proven). *)
 From Coq Require Import ZArith Bool.
 From Apd Require Import Generated.Consts Model.Base Model.NumDigits Model.Decimal Model.Context Spec.SpecZ
-  Proofs.Core Proofs.QuantizeProofs.
+  Proofs.Core Proofs.SetExponent Proofs.OpsProofs Proofs.QuantizeProofs Proofs.QuantizeMid.
 Open Scope Z_scope.
 
 Theorem C09_quantize_finer_exact est c v e : e <= exp v -> exp v - e <= MaxExponent ->
@@ -17,13 +19,13 @@ Theorem C09_quantize_finer_exact est c v e : e <= exp v -> exp v - e <= MaxExpon
 Proof. exact (quantize_finer est c v e). Qed.
 Print Assumptions C09_quantize_finer_exact.
 
-Theorem C09_quantize_every_digit_discarded_partial est : est_in_range est -> forall c v e,
+Theorem C09_quantize_every_digit_discarded est : est_in_range est -> forall c v e,
   form_of v = Finite -> 0 < coeff v -> ndigits (coeff v) < e - exp v ->
   quantize_inner est c v e =
     Ok (mkDec Finite (neg v) e (rndZ (rounding c) (neg v) (coeff v) (10 ^ (e - exp v))), fInexact ||| fRounded)
   /\ 0 <= rndZ (rounding c) (neg v) (coeff v) (10 ^ (e - exp v)) <= 1.
 Proof. exact (quantize_all_discarded est). Qed.
-Print Assumptions C09_quantize_every_digit_discarded_partial.
+Print Assumptions C09_quantize_every_digit_discarded.
 
 Theorem C09_quantize_zero est : est_in_range est -> forall c v e,
   form_of v = Finite -> coeff v = 0 -> 1 < e - exp v ->
@@ -37,6 +39,47 @@ Theorem C09_rti_value_vs_exact est c x : form_of x = Finite ->
   ctx_rti_value est c x = Ok (finish c d (clear_inexact_rounded f)) /\ ctx_rti_exact est c x = Ok (finish c d f).
 Proof. exact (rti_value_clears_flags est c x). Qed.
 Print Assumptions C09_rti_value_vs_exact.
+
+(* every branch of Context.quantize: the coefficient is x / 10^e rounded once, Inexact iff digits were lost *)
+Theorem C09_quantize_coefficient est : est_in_range est -> forall c v e, form_of v = Finite -> 0 <= coeff v ->
+  exp v - e < MaxExponent -> e - exp v < MaxExponent -> ndigits (coeff v) < MaxExponent ->
+  exists d f, quantize_inner est c v e = Ok (d, f) /\ quant_post c v e d f.
+Proof. exact (quantize_inner_correct est). Qed.
+Print Assumptions C09_quantize_coefficient.
+
+(* Context.Quantize: NaN + InvalidOperation exactly in the property's cases; otherwise exponent e, the rounded
+   coefficient, Inexact iff digits were lost (then Rounded), never Underflow / Overflow, and the result fits *)
+Theorem C09_quantize est : est_in_range est -> forall c x e, ctx_ok c -> form_of x = Finite -> 0 <= coeff x ->
+  exp x - e < MaxExponent -> e - exp x < MaxExponent -> ndigits (coeff x) < MaxExponent ->
+  in_lim e -> in_lim (e + ndigits (quant_coeff (rounding c) x e) - 1) ->
+  let q := quant_coeff (rounding c) x e in
+  if quant_invalid c x e
+  then ctx_quantize est c x e = Ok (finish c d_nan fInvalidOperation)
+  else exists f, ctx_quantize est c x e = Ok (finish c (mkDec Finite (neg x) e q) f) /\
+         Inexact f = quant_inexact x e /\ (Inexact f = true -> Rounded f = true) /\
+         Underflow f = false /\ Overflow f = false /\ InvalidOperation f = false /\
+         fits c (mkDec Finite (neg x) e q) = true.
+Proof. exact (quantize_correct est). Qed.
+Print Assumptions C09_quantize.
+
+(* RoundToIntegralExact is Quantize to exponent 0 without the digit limit; RoundToIntegralValue the same,
+   reporting neither Inexact nor Rounded *)
+Theorem C09_round_to_integral est : est_in_range est -> forall c x, form_of x = Finite -> 0 <= coeff x ->
+  exp x < MaxExponent -> - exp x < MaxExponent -> ndigits (coeff x) < MaxExponent ->
+  exists f, ctx_rti_exact est c x = Ok (finish c (mkDec Finite (neg x) 0 (quant_coeff (rounding c) x 0)) f) /\
+            ctx_rti_value est c x = Ok (finish c (mkDec Finite (neg x) 0 (quant_coeff (rounding c) x 0)) (clear_inexact_rounded f)) /\
+            Inexact f = quant_inexact x 0 /\ (Inexact f = true -> Rounded f = true) /\
+            Inexact (clear_inexact_rounded f) = false /\ Rounded (clear_inexact_rounded f) = false.
+Proof. exact (rti_correct est). Qed.
+Print Assumptions C09_round_to_integral.
+
+(* non-vacuity: 999.5 quantized to exponent 0 at Precision 3 under half_up rounds to 1000, which needs four
+   digits: invalid; at Precision 4 it is 1000 with Inexact *)
+Example C09_quantize_carry :
+  quant_invalid (mkCtx 3 9 (-9) c0 RHalfUp) (mkDec Finite false (-1) 9995) 0 = true /\
+  quant_invalid (mkCtx 4 9 (-9) c0 RHalfUp) (mkDec Finite false (-1) 9995) 0 = false /\
+  quant_coeff RHalfUp (mkDec Finite false (-1) 9995) 0 = 1000.
+Proof. vm_compute. repeat split. Qed.
 
 Example C09_example :   (* Quantize(0.01, 0) under RoundUp is 1, under RoundDown 0; -0.01 under Floor is -1 *)
   (quantize_inner go_est (mkCtx 5 9 (-9) c0 RUp) (mkDec Finite false (-2) 1) 0,
